@@ -220,9 +220,10 @@ pub fn run(ctx: &Ctx) -> Report {
         "model_checking",
         "closed-form reference (the property's inequalities): every type u/s/i x width N x value x spelling, #dN with unsized and sized values; non-trivial = value within 4 of a range boundary (0, +-2^(N-1), 2^N) for typed arguments, every data case; distinct by (type, width, value, spelling)",
     );
-    let full_upto = if ctx.thorough { 16 } else { 9 };
+    let full_upto = if ctx.thorough { 18 } else { 9 };
+    let small_upto = std::cmp::max(16, full_upto);
     let mut cases: Vec<Case> = vec![];
-    for n in 0..=16usize {
+    for n in 0..=small_upto {
         let vals = values_for(n, n <= full_upto);
         for ty in [Ty::U, Ty::S, Ty::I] {
             for v in &vals {
@@ -233,7 +234,7 @@ pub fn run(ctx: &Ctx) -> Report {
         }
     }
     // widths 17..256: complete boundary set
-    let wide: Vec<usize> = (17..=256).collect();
+    let wide: Vec<usize> = (small_upto + 1..=256).collect();
     for n in &wide {
         let vals = values_for(*n, false);
         for ty in [Ty::U, Ty::S, Ty::I] {
